@@ -656,7 +656,8 @@ func main() {
 		gen.AddCustomDirectives(r, sd)
 		gen.AddDisjointAbstract(r, sd)
 		gen.AddListShapes(r, sd)
-		text, meta := gen.ValidDoc(r, sd, 1+(i/5)%6)
+		gen.AddSubscriptionRoot(r, sd)
+		text, meta := gen.ValidDocWith(r, sd, 1+(i/5)%6, gen.ValidDocOpts{Subscriptions: true})
 		return sd, meta, text
 	}
 	n := run.N(500, 20000)
